@@ -618,14 +618,16 @@ package jet
 //@   exsures [runtime-valid-on-panic] RtX(st)
 
 //@ func (*Runtime).executeYieldBlock$1
-//@   props C07 C08 C13 C12
+//@   props C07 C08 C13 C12 C09
+//@   check [the-content-hands-up-what-its-list-returned] {C09} returnValue == lastret("(*Runtime).executeList", 0)
 //@   refines field:Runtime.content
 //@   requires myscope != nil && content != nil && WFL(content)
 //@   callsite (*Runtime).executeList * requires st.scope == myscope && st.content == mycontent
 //@   callsite (*Runtime).executeList count 2
 
 //@ func (*Runtime).executeYieldBlock
-//@   props C07 C08 C13 C10 C12
+//@   props C07 C08 C13 C10 C12 C09
+//@   check [a-block-hands-up-what-its-body-returned] {C09} returnValue == lastret("(*Runtime).executeList", 0)
 //@   requires RtOK(st) && block != nil && WF(iface(block, "*BlockNode")) && blockParam != nil && WFParams(blockParam) && yieldParam != nil && WFParams(yieldParam) && (expression != nil ==> WF(expression)) && (content != nil ==> WFL(content))
 //@   modifies @Interp
 //@   loop 0 entry [every-yield-argument-is-bound] {C08} i == 0
@@ -662,6 +664,11 @@ package jet
 //@   loop 1 invariant [ctx] context == old(st.context) && (valVarSlot >= 0 ==> st.context == context)
 //@   loop 1 invariant [scope] ite(isLet, st.scope.parent != nil && ite(inNewScope, st.scope.parent.parent == old(st.scope), st.scope.parent == old(st.scope)), ite(inNewScope, st.scope.parent == old(st.scope), st.scope == old(st.scope)))
 //@   loop 0 step [only-a-return-statement-replaces-the-value-of-an-earlier-return] {C09} NTF(list.Nodes[prev(i)]) != NodeReturn ==> returnValue == prev(returnValue) || RvValid(returnValue)
+//@   loop 0 step [a-block-hands-up-the-value-its-body-returned] {C09} NTF(list.Nodes[prev(i)]) == NodeBlock ==> returnValue == ite(RvValid(siteret("(*Runtime).executeYieldBlock", 1, 0)), siteret("(*Runtime).executeYieldBlock", 1, 0), prev(returnValue))
+//@   loop 0 step [a-yield-hands-up-the-value-the-block-returned] {C09} NTF(list.Nodes[prev(i)]) == NodeYield && !as(list.Nodes[prev(i)], "*YieldNode").IsContent ==> returnValue == ite(RvValid(siteret("(*Runtime).executeYieldBlock", 0, 0)), siteret("(*Runtime).executeYieldBlock", 0, 0), prev(returnValue))
+//@   loop 0 step [a-yield-content-hands-up-the-value-the-content-returned] {C09} NTF(list.Nodes[prev(i)]) == NodeYield && as(list.Nodes[prev(i)], "*YieldNode").IsContent && prev(st.content) != nil ==> returnValue == ite(RvValid(lastret("field:Runtime.content", 0)), lastret("field:Runtime.content", 0), prev(returnValue))
+//@   loop 0 step [a-try-hands-up-the-value-it-returned] {C09} NTF(list.Nodes[prev(i)]) == NodeTry ==> returnValue == ite(RvValid(siteret("(*Runtime).executeTry", 0, 0)), siteret("(*Runtime).executeTry", 0, 0), prev(returnValue))
+//@   loop 0 step [an-include-hands-up-the-value-the-included-template-returned] {C09} NTF(list.Nodes[prev(i)]) == NodeInclude ==> returnValue == ite(RvValid(siteret("(*Runtime).executeInclude", 0, 0)), siteret("(*Runtime).executeInclude", 0, 0), prev(returnValue))
 //@   loop 0 step [a-return-statement-sets-the-value-to-its-operand] {C09} NTF(list.Nodes[prev(i)]) == NodeReturn ==> returnValue == siteret("(*Runtime).evalPrimaryExpressionGroup", 3, 0)
 //@   callsite (*Runtime).evalPrimaryExpressionGroup 3 requires [a-return-statement-evaluates-its-operand] {C09} node == as(caller.list.Nodes[caller.i], "*ReturnNode").Value
 //@   loop 0 step [a-range-hands-its-ranger-back-exactly-once] {C10,C11,C05} ncalls("dynamic:func()") == prev(ncalls("dynamic:func()")) + ite(NTF(list.Nodes[prev(i)]) == NodeRange, 1, 0)
